@@ -1,12 +1,12 @@
 """Family `reader` (C06): StreamReader over streams of valid, torn and corrupted records."""
 import itertools
-from core import gbytes, hexs
+from core import gbytes, gbytes_runs, hexs
 import fam_hcobs, fam_chunk, translate
 
 NAME = "reader"
 RUNFILE = "RunStream"
 PREAMBLE = ("From Coq Require Import NArith ZArith List. Import ListNotations. Open Scope N_scope.\n"
-            "From WP Require Import run.RunStream.")
+            "From WP Require Import run.RunStream run.Hex.")
 RUNNER = "run_reader"
 FIELDS = ["one field per returned record: [range start, range end, decoded bytes...]", "last: [stream stays ended, last_sentinel_offset]"]
 SHARD = 500
@@ -33,7 +33,7 @@ def parse(line):
 def coq_term(line):
     bs, mx, lim, s, sched = parse(line)
     mi, ms = fam_hcobs.prod()
-    return f"({mi}, {ms}, {bs}, {mx}, {lim}, {gbytes(s)})"
+    return f"({mi}, {ms}, {bs}, {mx}, {lim}, {gbytes_runs(s)})"
 
 
 def view(pid, case, obs):
@@ -115,6 +115,22 @@ def generate(rng, n, tier, pid):
             if tier == "quick" and ln >= 5 and i % 2:
                 continue
             out.append(f"{i % 4} {'-' if i % 3 else i % 2} {'-' if i % 5 else i % (ln + 2)} {hexs(list(s))} " + " ".join(["s:1", "i"] * (i % 2)))
+    # long logs: the reader's own arena crosses chunk boundaries (4 KiB, then growing) at many alignments
+    # relative to carried FE bytes, record ends and block refills
+    for j in range(max(6, n // 400)):
+        target = rng.range(4200, 4200 + 2500 * (1 + j % 4))
+        s = []
+        while len(s) < target:
+            s += stream(rng)
+        bs = str([1, 2, 3, 5, 7, 64][j % 6])
+        out.append(f"{bs} - - {hexs(s)}")
+    # directed arena alignments: a filler that leaves 0..8 bytes of room in the reader's first 4 KiB chunk
+    # when a carried FE must be completed by the next refill
+    enc = fam_hcobs.ref_encode([0x62, 0x63], mi, ms)
+    for bs in (1, 2, 3):
+        for f in range(4088, 4100):
+            # first byte FF: not a header, so the decoder stops at once and the arena only serves refills
+            out.append(f"{bs} - - {hexs([0xFF if f % 4 else 0x61] + [0x61] * (f - 1) + [FE, FD] + enc + [FE, FD] + enc)}")
     for _ in range(n):
         s = stream(rng)
         bs = rng.weighted([(3, str(rng.below(6))), (2, str(rng.range(6, 70))), (1, "4096"), (1, "-")])
